@@ -31,7 +31,7 @@ class Sched:
     def run(self, main_fn, name='main'):
         ct = CT(self, name, main_fn)
         self.threads[name] = ct
-        ct.real.start()
+        ct.real.start(); ct.first_park.wait(); self.wake_sched.release()
         # scheduler loop (runs in caller thread)
         while True:
             self.wake_sched.acquire()      # wait until the running thread parks or exits
@@ -60,13 +60,16 @@ class CT:
     def __init__(self, sched, name, fn):
         self.sched=sched; self.name=name; self.fn=fn; self.sem=_t.Semaphore(0)
         self.pending=None; self.decision=None; self.started=False; self.finished=False
+        self.first_park=_t.Event()
         self.real=_t.Thread(target=self._run, name=name, daemon=True); self.exc=None
         self.started=True
     def _run(self):
         _local.ct = self
         try:
-            # wait to be scheduled the first time
-            self.sched.yield_op(self, ('begin', None, lambda: True, False))
+            # park without waking the scheduler: the starter thread is still running
+            self.pending=('begin', None, lambda: True, False)
+            self.first_park.set()
+            self.sem.acquire(); self.pending=None
             self.fn()
         except BaseException as e:
             self.exc = e
@@ -86,7 +89,7 @@ def make_shims(sched, refuse_start=()):
             if self.name in refuse_start: raise RuntimeError("can't start new thread")
             self._ct = CT(sched, self.name, self._target); sched.threads[self.name]=self._ct
             self._ct.real.start()
-            sched.wake_sched.acquire()   # new thread parks at 'begin' immediately; consume its wake
+            self._ct.first_park.wait()   # dedicated handshake (not the scheduler's semaphore)
         def is_alive(self):
             cur().sched.yield_op(cur(), ('is_alive:'+self.name, None, lambda: True, False))
             return self._ct is not None and not self._ct.finished
